@@ -118,6 +118,8 @@ type allocRec struct {
 }
 
 type Enc struct {
+	families []*sliceFamily
+	escAt    map[ssa.Instruction][]*sliceFamily
 	p    *Prog
 	fn   *ssa.Function
 	name string
@@ -797,6 +799,7 @@ func (e *Enc) Encode() {
 	e.emit("; function " + e.name)
 	e.analyzeCFG()
 	e.collectNames()
+	e.computeSliceFamilies()
 	if e.opts.Houdini {
 		e.genCandidates()
 	}
